@@ -201,6 +201,10 @@ webSocketsHandshake(rfbClientPtr cl, char *scheme)
         }
 
         len += 1;
+        /* keep the request NUL-terminated while it grows: every pointer into
+           it (header values, the strtol() argument) is then a C string even
+           if the request ends without an empty line or a value is empty */
+        buf[len] = '\0';
         llen = len - linestart;
         if (((llen >= 2)) && (buf[len-1] == '\n')) {
             line = buf+linestart;
